@@ -253,3 +253,32 @@ pub(crate) fn with_document_scope<R>(f: impl FnOnce() -> R) -> R {
     drop(guard);
     result
 }
+
+/// Verification hook (feature `verif_hooks`): read-only copy of the thread-local anchor state.
+/// Kind codes: 0 = Rc, 1 = Arc, 2 = RcRecursive, 3 = ArcRecursive.
+#[cfg(feature = "verif_hooks")]
+#[allow(clippy::type_complexity)]
+pub(crate) fn verif_snapshot() -> (Vec<(u8, usize)>, Vec<(u8, usize, usize)>, Vec<(u8, usize)>) {
+    fn code(k: AnchorKind) -> u8 {
+        match k {
+            AnchorKind::Rc => 0,
+            AnchorKind::Arc => 1,
+            AnchorKind::RcRecursive => 2,
+            AnchorKind::ArcRecursive => 3,
+        }
+    }
+    STATE.with(|state| {
+        let s = state.borrow();
+        let stack = s.stack.iter().map(|(k, id)| (code(*k), *id)).collect();
+        let mut in_progress: Vec<(u8, usize, usize)> =
+            s.in_progress.iter().map(|((k, id), c)| (code(*k), *id, *c)).collect();
+        in_progress.sort_unstable();
+        let mut stored: Vec<(u8, usize)> = Vec::new();
+        stored.extend(s.store.rc.keys().map(|id| (0u8, *id)));
+        stored.extend(s.store.arc.keys().map(|id| (1u8, *id)));
+        stored.extend(s.store.rc_recursive.keys().map(|id| (2u8, *id)));
+        stored.extend(s.store.arc_recursive.keys().map(|id| (3u8, *id)));
+        stored.sort_unstable();
+        (stack, in_progress, stored)
+    })
+}
